@@ -9,6 +9,16 @@ theorem hasAccess_iff (required user : List String) :
   | nil => simp
   | cons a rest => simp [List.any_eq_true]
 
+theorem nonEmpty_filter_eq_any (l user : List String) :
+    (!(l.filter (fun x => user.contains x)).isEmpty) = l.any (fun r => user.contains r) := by
+  induction l with
+  | nil => simp
+  | cons a rest ih =>
+    by_cases h : a ∈ user
+    · simp [List.filter_cons, h]
+    · simp only [List.contains_eq_mem] at ih
+      simp [List.filter_cons, h, ih]
+
 theorem hasAccess_nil (user : List String) : hasAccess [] user = true := by simp [hasAccess]
 
 theorem hasAccess_false_of_disjoint (required user : List String) (hne : required ≠ [])
